@@ -39,6 +39,8 @@ type Harness struct {
 	TimeoutMs   int               `json:"timeout_ms,omitempty"`
 	TimeCapS    int               `json:"timecap_s,omitempty"`
 	ConcreteMake bool             `json:"concrete_make,omitempty"`
+	SharedWrites bool             `json:"-"` // report writes of the code under test to package-level memory (C16/C17 checks)
+	PropsThorough []string        `json:"props_thorough,omitempty"`
 }
 
 type Engine struct {
